@@ -3,6 +3,7 @@
 package props
 
 import (
+	"strconv"
 	"cmp"
 	"fmt"
 	"math"
@@ -751,6 +752,38 @@ func runC04(c *fw.Ctx) {
 		if !ok {
 			c.FailKind("panic", map[string]any{"map": "omap.New[int,int]", "keys": n}, "panic: %v\n%s", pv, stack)
 		}
+	}
+	if c.Thorough() && c.Flavour == "plain" && c.Block == 0 && strconv.IntSize == 64 && c.Begin(1<<23+5000) {
+		// thorough only (about a minute): iterators stay positioned while the map
+		// goes through 2^32 edits (no-op Deletes after one real one); each of them
+		// is re-sought at an edit count within 4 of 2^32 - a 32-bit edit counter
+		// or version stamp meets its old value again exactly there
+		m := omap.New[int, string]()
+		m.Set(30, "c")
+		m.Set(10, "a")
+		m.Set(20, "b")
+		its := make([]*omap.Iter[int, string], 9)
+		for i := range its {
+			its[i] = m.Seek(20)
+		}
+		m.Delete(20) // edit 1: the entry the iterators stand on is gone
+		const target = 1 << 32
+		for e := uint64(2); e <= target-5; e++ {
+			m.Delete(99)
+			if e&(1<<26-1) == 0 {
+				c.Step()
+			}
+		}
+		for i, it := range its {
+			// now target-5+i edits have been made
+			it.Seek(20)
+			if !it.IsValid() || it.Key() != 30 || it.Value() != "c" {
+				c.Fail(map[string]any{"edits_since_the_iterator_was_positioned": uint64(target-5) + uint64(i)}, "an iterator positioned at key 20 before 20 was deleted, re-sought to 20 after %d edits: valid=%v key=%d value=%q, want the entry 30:c", uint64(target-5)+uint64(i), it.IsValid(), it.Key(), it.Value())
+				break
+			}
+			m.Delete(99)
+		}
+		c.Add("edit_counter_wraparound_runs", 1)
 	}
 	for k := 0; k < c.Pick(4, 40); k++ {
 		if !c.Begin(1<<23 + k) {
